@@ -78,8 +78,14 @@ void buildSpace(bool thorough, size_t dirSize) {
         states.push_back(s);
       }
   for (int m = 1; m <= 2; ++m) { State s; s.type = Dir; s.mt = m; s.name = "dir:" + mtimes[(size_t)m].name; states.push_back(s); }
-  struct { const char* tgt; int mt; } links[] = {{"tA", 1}, {"tB", 1}, {"tA", 2}, {"nx", 1}};
-  for (auto& l : links) { State s; s.type = Link; s.target = l.tgt; s.mt = l.mt; s.name = std::string("ln:") + l.tgt + ":" + mtimes[(size_t)l.mt].name; states.push_back(s); }
+  struct LinkSpec { std::string label, tgt; int mt; };
+  // long (dangling) targets of equal length that differ only in their LAST byte: 300 bytes, and 4000 bytes (close to PATH_MAX)
+  std::string long300(299, 'q'), long4000(3999, 'q');
+  for (size_t i = 0; i < long4000.size(); i += 64) long4000[i] = '/';
+  std::vector<LinkSpec> links = {{"tA", "tA", 1}, {"tB", "tB", 1}, {"tA", "tA", 2}, {"nx", "nx", 1},
+                                 {"long300a", long300 + "a", 1}, {"long300b", long300 + "b", 1}};
+  if (thorough) { links.push_back({"long4000a", long4000 + "a", 1}); links.push_back({"long4000b", long4000 + "b", 1}); }
+  for (auto& l : links) { State s; s.type = Link; s.target = l.tgt; s.mt = l.mt; s.name = std::string("ln:") + l.label + ":" + mtimes[(size_t)l.mt].name; states.push_back(s); }
 }
 int findState(const std::string& n) {
   for (size_t i = 0; i < states.size(); ++i) if (states[i].name == n) return (int)i;
